@@ -194,6 +194,11 @@ def judge_pair(rec, ws, pair, rx, tx, where, attr=""):
     body_t = (mt or {}).get(section, {}) if section else (mt or {})
     ok_t = str(body_t.get(krx)) == str(rx.uid) and str(body_t.get(ktx)) == str(tx.uid)
     rec.check("C20.asymmetric", ok_t, op=where, cls=cls, attr="identifiers-partner", detail=f"partner-side metadata names {body_t.get(krx)} / {body_t.get(ktx)}, expected {rx.uid} / {tx.uid}")
+    comps = getattr(rec, "c20_components", None)
+    if comps:
+        listed = [str(x) for x in ((rx.metadata or {}).get(section, {}) or {}).get("Property groups", [])]
+        have = {pg.name for pg in (rx.property_groups or [])} | {str(pg.uid) for pg in (rx.property_groups or [])}
+        rec.check("C20.file", all(c in listed or any(x in have for x in listed) and len(listed) >= len(comps) for c in comps), op=where, cls=cls, attr="components", detail=f"the receivers carry the components {comps}; their metadata lists {listed}")
     rec.check("C20.getter", partner_of(pair, rx, "rx") is tx, op=where, cls=cls, attr="from-receivers", detail=f"receivers' partner getter returns {partner_of(pair, rx, 'rx')!r}, not the linked partner")
     rec.check("C20.getter", partner_of(pair, tx, "tx") is rx, op=where, cls=cls, attr="from-partner", detail=f"partner's getter returns {partner_of(pair, tx, 'tx')!r}, not the linked receivers")
     try:
@@ -307,6 +312,21 @@ def run_case(case, rec):
         rec.see("pairs-x-directions") if case["rep"] == 0 else None
         menu = edits_for(pair, rx)
         expected = {}
+        components = []
+        if pair[3] == "em" and case["rep"] % 3 == 1:
+            # measured components on the receivers: one data set per channel, grouped; the survey's metadata lists the groups
+            try:
+                rx.channels = [1.0, 2.0, 3.0]
+                dat = rx.add_data({f"ch{c}": {"values": np.arange(rx.n_vertices, dtype=float) + c} for c in (1, 2, 3)})
+                rx.add_components_data({"dbdt z": dat})
+                components = ["dbdt z"]
+                expected["channels"] = canon([1.0, 2.0, 3.0])
+                rec.see("pairs-with-components")
+                rec.c20_components = components
+            except Exception as exc:  # noqa: BLE001
+                if not exc_origin(exc)[0]:
+                    raise
+                rec.see("components-refused:" + type(exc).__name__)
         if case["rep"] % 2 == 1:
             cold_edit(rec, ws, pair, rx, tx, rng, menu, expected, "after-link")
         judge_pair(rec, ws, pair, rx, tx, "link:" + direction)
